@@ -20,7 +20,8 @@
     monitor that evaluates [spec.py] (the same formulas) next to the implementation. *)
 From Coq Require Import List ZArith Bool Reals Lra Lia.
 From OSV Require Import Num Order Gauss Core RInst Spec.
-From OSV.Lemmas Require C01L.
+From OSV Require GaussInst.
+From OSV.Lemmas Require C01L C01RefutedL.
 Import ListNotations.
 Open Scope R_scope.
 
@@ -153,3 +154,72 @@ Proof.
   cbn. repeat split; try lra; try (repeat constructor; discriminate); try (repeat constructor; cbn; lia).
   repeat constructor; cbn; lra.
 Qed.
+Print Assumptions C01_premises_satisfiable.
+
+(** ** K1 as a theorem: ThurstoneMostellerPart does NOT compute the published closed form.
+
+    [C01_TMP_refines_scaled] says the code is the closed form with c_iq doubled; the three
+    statements below say that this is a different function from the published one
+    ([Spec.wl_update], factor 1) -- "C01 for TMP" is refuted by a witness, a valid call:
+    two single-player teams, both players mu = 0, sigma = 1; beta = 1, kappa = 1/1000, the
+    default gamma sqrt(ss)/c, tau = 0, limit_sigma off, ranks 0 < 1 (the first team wins).
+    There c_iq = sqrt(1 + 1 + 2) = 2, x = 0, and the winner's posterior mu is
+    (1/(2 f)) V(-1/(2000 f)), V = phi/Phi: 1/2 V(-1/2000) ~ 0.39910 as published (f = 1),
+    1/4 V(-1/4000) ~ 0.19951 in the code (f = 2). *)
+
+(** for every valid call: any difference between the factor-2 and the factor-1 closed forms is
+    a difference between [rate] and the published update *)
+Theorem C01_TMP_refuted_reduction : forall (Phi Phiinv : R -> R) (P : params R) (tau : R) (limit : bool)
+    (teams : list (list (rating R))) (keys : option (list key)),
+  0 < p_beta P -> 0 < p_kappa P <= 1 -> 0 <= tau ->
+  (2 <= length teams)%nat -> Forall (fun t => t <> []) teams ->
+  Forall (Forall (fun p : rating R => 0 <= r_sigma p /\ 0 < r_sigma p * r_sigma p + tau * tau)) teams ->
+  match keys with
+  | Some ks => length ks = length teams /\ Forall (fun k : key => (0 <= snd k)%Z) ks
+  | None => True
+  end ->
+  Spec.wl_update_f Phi Phiinv 2 TMP P tau limit teams keys
+    <> Spec.wl_update Phi Phiinv TMP P tau limit teams keys ->
+  @rate_core R (RNum Phi Phiinv) TMP P tau limit teams keys
+    <> Spec.wl_update Phi Phiinv TMP P tau limit teams keys.
+Proof. intros; now apply C01RefutedL.TMP_refuted_reduction. Qed.
+Print Assumptions C01_TMP_refuted_reduction.
+
+(** the witness, for every distribution function satisfying [GaussFacts]: the call is valid,
+    and the code gives the winner a strictly smaller posterior mu than Algorithm 3 (hence
+    the two results differ) *)
+Theorem C01_TMP_refuted_witness : forall (Phi Phiinv : R -> R), GaussFacts Phi Phiinv ->
+  let P : params R := mkParams 1 (1 / 1000) (fun c _ _ ss _ _ => sqrt ss / c) in
+  let tau := 0 in
+  let teams := [[mkRating 0 1 0 NmNone]; [mkRating 0 1 1 NmNone]] in
+  let keys := Some [(0, 0); (1, 0)]%Z in
+  (0 < p_beta P /\ 0 < p_kappa P <= 1 /\ 0 <= tau /\
+   (2 <= length teams)%nat /\ Forall (fun t => t <> []) teams /\
+   Forall (Forall (fun p : rating R => 0 <= r_sigma p /\ 0 < r_sigma p * r_sigma p + tau * tau)) teams /\
+   match keys with
+   | Some ks => length ks = length teams /\ Forall (fun k : key => (0 <= snd k)%Z) ks
+   | None => True
+   end) /\
+  r_mu (hd (mkRating 0 0 0 NmNone) (hd [] (@rate_core R (RNum Phi Phiinv) TMP P tau false teams keys)))
+  < r_mu (hd (mkRating 0 0 0 NmNone) (hd [] (Spec.wl_update Phi Phiinv TMP P tau false teams keys))) /\
+  @rate_core R (RNum Phi Phiinv) TMP P tau false teams keys
+    <> Spec.wl_update Phi Phiinv TMP P tau false teams keys.
+Proof. intros Phi Phiinv GF; exact (conj (C01RefutedL.witness_valid) (conj (C01RefutedL.TMP_witness_mu_lt Phi Phiinv GF) (C01RefutedL.TMP_witness_neq Phi Phiinv GF))). Qed.
+Print Assumptions C01_TMP_refuted_witness.
+
+(** the refutation with nothing left open: for the concrete standard normal distribution
+    function [GaussInst.PhiK] (all of [GaussFacts] proved for it in GaussFull.v) there is a
+    valid call on which [rate] with ThurstoneMostellerPart is not the published update *)
+Theorem C01_TMP_refuted :
+  exists (P : params R) (tau : R) (teams : list (list (rating R))) (keys : option (list key)),
+    (0 < p_beta P /\ 0 < p_kappa P <= 1 /\ 0 <= tau /\
+     (2 <= length teams)%nat /\ Forall (fun t => t <> []) teams /\
+     Forall (Forall (fun p : rating R => 0 <= r_sigma p /\ 0 < r_sigma p * r_sigma p + tau * tau)) teams /\
+     match keys with
+     | Some ks => length ks = length teams /\ Forall (fun k : key => (0 <= snd k)%Z) ks
+     | None => True
+     end) /\
+    @rate_core R (RNum GaussInst.PhiK GaussInst.PhiinvK) TMP P tau false teams keys
+    <> Spec.wl_update GaussInst.PhiK GaussInst.PhiinvK TMP P tau false teams keys.
+Proof. exact C01RefutedL.TMP_refuted. Qed.
+Print Assumptions C01_TMP_refuted.
